@@ -19,7 +19,7 @@ EXPLANATION = (
     "R7: LinearPolynomial algebra (add, neg, sub, mul, rmul, late substitution in _wait) is checked as polynomial "
     "normal forms over symbolic coefficients. R8: a binding found through the export map is not accepted before "
     "not_ready(). R9: the symbol tables are read only by duplicate guards, lazily, or after the whole image was waited.")
-ASSUMPTIONS = ["equality of results across all definition orders at run time is not decided", "recursion depth of long chains is not decided"]
+ASSUMPTIONS = ["equality of results across all definition orders at run time is not decided", "recursion depth: decided only as rule G12 (no int-valued thunk forces its operand; four sites of the pinned tree do and are known findings)"]
 TRUSTED = ["sa.engine.interp", "sa.engine.flow"]
 LEVEL_TEXT = "Protocol facts hold on every path of the code; the algebra holds for all coefficient values (polynomial identity)."
 LEVEL_NOTE = "necessary conditions; the run-time evaluation order is not modelled"
@@ -414,11 +414,12 @@ def rule_R8(ck):
     while changed:
         changed = False
         for n in walk_local(fn):
-            if isinstance(n, ast.Assign) and isinstance(n.targets[0], ast.Name):
+            if isinstance(n, ast.Assign):
+                names = [m.id for t in n.targets for m in ast.walk(t) if isinstance(m, ast.Name) and isinstance(m.ctx, ast.Store)]   # also tuple targets
                 src = {m.id for m in ast.walk(n.value) if isinstance(m, ast.Name)}
                 attrs = {m.attr for m in ast.walk(n.value) if isinstance(m, ast.Attribute)}
-                if ("extern_symbols_mapping" in attrs or src & tainted) and n.targets[0].id not in tainted:
-                    tainted.add(n.targets[0].id)
+                if ("extern_symbols_mapping" in attrs or src & tainted) and set(names) - tainted:
+                    tainted.update(names)
                     changed = True
     rets = [r for r in walk_local(fn) if isinstance(r, ast.Return) and r.value is not None
             and ({m.id for m in ast.walk(r.value) if isinstance(m, ast.Name)} & tainted or "extern_symbols_mapping" in {m.attr for m in ast.walk(r.value) if isinstance(m, ast.Attribute)})]
@@ -461,28 +462,71 @@ def table_reads(repo):
     return out
 
 
+def _in_test(node, fn):
+    """node is (part of) the condition of an if / while / conditional expression / assert"""
+    child, p = node, node._parent
+    while p is not None and p is not fn and not isinstance(p, ast.stmt):
+        if isinstance(p, ast.IfExp) and child is p.test:
+            return True
+        if isinstance(p, ast.Call) and not (isinstance(p.func, ast.Attribute) and p.func.attr == "get" and child is p.func):
+            return False       # passed to a call: not a plain test any more
+        child, p = p, p._parent
+    return isinstance(p, (ast.If, ast.While, ast.Assert)) and child is p.test
+
+
+def _in_report(node, fn):
+    from ..rules import guards
+    p = node._parent
+    while p is not None and p is not fn:
+        if isinstance(p, ast.Call) and guards.is_report_call(p, ("error", "critical", "warning")):
+            return True
+        p = p._parent
+    return False
+
+
+def read_is_guard(fn, n):
+    """the value read from the symbol table only decides a test or is shown in a diagnostic: it never reaches a returned value, a store or another call"""
+    if _in_test(n, fn) or _in_report(n, fn):
+        return True
+    # `prev, _ = table[name]` / `prev = table[name][0]`: follow the local names
+    p = n._parent
+    while p is not None and not isinstance(p, ast.stmt):
+        p = p._parent
+    if isinstance(p, ast.Assign):
+        names = {m.id for t in p.targets for m in ast.walk(t) if isinstance(m, ast.Name) and isinstance(m.ctx, ast.Store)}
+        if names and all(isinstance(t, (ast.Name, ast.Tuple)) for t in p.targets):
+            uses = [m for m in walk_local(fn) if isinstance(m, ast.Name) and isinstance(m.ctx, ast.Load) and m.id in names]
+            return all(_in_test(u, fn) or _in_report(u, fn) for u in uses)
+    return False
+
+
+def definer_helpers(repo):
+    """private helpers (reached only from the definers) inherit the definers' role"""
+    from ..rules import guards
+    out = set()
+    changed = True
+    while changed:
+        changed = False
+        for q, fn in repo.all_functions():
+            if q in DEFINERS or q in out or not isinstance(fn, ast.FunctionDef) or q.split("::")[0] != "compiler":
+                continue
+            callers = {c for c, _ in guards.callers_of(repo, fn)}
+            if callers and all(c in DEFINERS or c in out for c in callers):
+                out.add(q)
+                changed = True
+    return out
+
+
 def rule_R9(ck):
     repo = ck.repo
     reads = table_reads(repo)
+    helpers = definer_helpers(repo)
     for q, fn, n in reads:
-        cls = "definer" if q in DEFINERS else "lazy" if q in LAZY else "final" if q in FINAL else "eager"
+        cls = "definer" if q in DEFINERS or q in helpers else "lazy" if q in LAZY else "final" if q in FINAL else "eager"
         ck.instance(("read", q, n.lineno), {"function": q, "read": norm_text(n._parent)[:80], "class": cls}, fn=q)
         if cls == "definer":
-            # must be a duplicate guard: `if name in table:` whose body reports and returns/does not store
-            p = n._parent
-            ok = False
-            while p is not None and p is not fn:
-                if isinstance(p, ast.If) and any(m is n for m in ast.walk(p.test)):
-                    from ..rules import guards
-                    ok = guards.body_reports(p.body)
-                    break
-                if isinstance(p, ast.If) and any(m is n for m in ast.walk(p)):
-                    # inside the body of the guard (reading the previous definition for the message)
-                    from ..rules import guards
-                    ok = guards.body_reports(p.body)
-                    break
-                p = p._parent
-            if not ok:
+            # must be a duplicate guard: the value only decides a test or is shown in the diagnostic
+            if not read_is_guard(fn, n):
                 ck.violation(n, f"{q.split('::')[1]} reads the symbol table for something other than a duplicate check", construct="definer read " + norm_text(n._parent)[:60])
         elif cls == "eager":
             if q.startswith("compiler::Compiler.__init__"):
